@@ -42,6 +42,9 @@ M = [
     ("c14-ack-delay-exponent-21", "C14", "quic/s2n-quic-core/src/transport/parameters/mod.rs",
      "        decoder_invariant!(self.0 <= 20, \"ack_delay_exponent cannot be greater than 20\");",
      "        decoder_invariant!(self.0 <= 21, \"ack_delay_exponent cannot be greater than 20\");", "C14", 108),
+    ("c09-pto-backoff-plus-one", "C09", "quic/s2n-quic-transport/src/recovery/manager.rs",
+     "                    (context.active_path().pto_backoff * 2).min(max_pto_backoff);",
+     "                    (context.active_path().pto_backoff + 1).min(max_pto_backoff);", "C09bh", 160),
     ("c03-reset-final-size-revert", "C03", "quic/s2n-quic-transport/src/stream/send_stream.rs",
      "        let requested_connection_window = core::cmp::min(end_offset, self.max_stream_data);",
      "        let requested_connection_window = end_offset;", "C03", 200),
